@@ -265,11 +265,18 @@ def gen_clean(rng, greedy=False, p_group=0.22, p_op=0.55):
             if m in (2, 3):
                 m = rng.choice([0, 1])
             base_null = True
+        force_sep = False
         if base_null and m in (2, 3):
-            m = 1
+            # a nullable element repeated: unambiguous only as one-or-more with a separator
+            # (every empty match is then a separate element of the resulting list)
+            if base[0] == "grp" and rng.random() < 0.6:
+                m = M_PLUS
+                force_sep = True
+            else:
+                m = 1
         g = bool(m) and greedy and rng.random() < 0.5
         sep = None
-        if m in (2, 3) and rng.random() < 0.3:
+        if m in (2, 3) and (force_sep or rng.random() < 0.3):
             sep = rng.choice(seps)
         nul = base_null or m in (1, 2)
         return (base[0], base[1], m, g, sep), nul
